@@ -170,7 +170,7 @@ impl Property for C01 {
     fn gen(&self, src: &mut Src) -> Scenario {
         let dev_kind = crate::exec::gen_dev_kind(src);
         // 1 run in 256: display-scale sizes and coordinates (up to 300, stroke widths up to 140)
-        let huge = src.draw(256) == 255;
+        let huge = if crate::prop::deep() { src.draw(64) == 63 } else { src.draw(256) == 255 };
         let large = src.draw(5) < 3;
         let bbox = if huge {
             [-330, -330, 1000, 1000]
@@ -320,7 +320,7 @@ impl Property for C01 {
                                     crate::dev::DISCIPLINES[sc.disc_b as usize].name()
                                 )),
                             )
-                            .set("path_C", J::s("draw_iter(styled.pixels()) on the path-A device (styled primitives only)")),
+                            .set("path_C", J::s("draw_iter(styled.pixels()) on the path-A device (styled primitives without adapter stack only)")),
                     )
                     .set("stack_device_first", stack_json(&sc.stack))
                     .set("drawable", sc.drawable.to_json()),
@@ -346,7 +346,10 @@ impl Property for C01 {
         }
         let a = run_drawable(&cfg(sc, &dev_a), &sc.drawable, Path::Draw);
         let b = run_drawable(&cfg(sc, &dev_b), &sc.drawable, Path::Draw);
-        let c = if sc.drawable.is_styled() {
+        // The pixels() path is only compared on the bare device: through an adapter stack path C
+        // would use the adapters' draw_iter while draw() uses their fill methods, so an adapter
+        // defect (C03's business) would show up here as a pixels()-vs-draw() difference.
+        let c = if sc.drawable.is_styled() && sc.stack.is_empty() {
             out.probes |= probe("pixels_path_compared");
             Some(run_drawable(&cfg(sc, &dev_a), &sc.drawable, Path::Pixels))
         } else {
